@@ -130,6 +130,31 @@ MUTANTS = [
      "        if self.tree is None or other.tree is None:\n            return np.zeros(len(ang_limits))\n", ""),
     ("c10-binning-file-closed-flipped", ["C07"], "catalog/trees.py",
      "                closed_left = binning.closed == Closed.left", "                closed_left = binning.closed == Closed.left or len(binning) == 1"),
+    # ---- C06
+    ("c06-sentinel-per-task", ["C06"], "utils/parallel.py",
+     "        except StopIteration:\n            comm.send(EndOfQueue, dest=rank, tag=1)\n            active_workers -= 1",
+     "        except StopIteration:\n            comm.send(EndOfQueue, dest=rank, tag=1)\n        active_workers -= 1"),
+    ("c06-result-without-rank", ["C06"], "utils/parallel.py",
+     "        comm.send((rank, result), dest=0, tag=2)", "        comm.send((0 if rank % 2 else rank, result), dest=0, tag=2)"),
+    ("c06-missing-final-barrier", ["C06"], "catalog/catalog.py",
+     "            parallel.COMM.send(EndOfQueue, dest=worker_config.writer_rank, tag=1)\n        parallel.COMM.Barrier()",
+     "            parallel.COMM.send(EndOfQueue, dest=worker_config.writer_rank, tag=1)"),
+    ("c06-eager-send-to-writer", ["C06"], "catalog/catalog.py",
+     "            parallel.COMM.ssend(patches, dest=worker_config.writer_rank, tag=1)", "            parallel.COMM.send(patches, dest=worker_config.writer_rank, tag=1)"),
+    ("c06-source-hardcoded-after-split", ["C06"], "catalog/catalog.py",
+     "            return comm.recv(source=0, tag=2)", "            return comm.recv(source=1, tag=2)"),
+    ("c06-bcast-root-only", ["C06"], "catalog/catalog.py",
+     "    return parallel.COMM.bcast(patches, root=0)", "    return patches if parallel.on_root() else parallel.COMM.bcast(patches, root=0) if False else patches"),
+    ("c06-min-one-worker-dropped", ["C06"], "utils/parallel.py",
+     "        max_workers = max(max_workers, 2)\n", ""),
+    ("c06-hist-no-bcast", ["C06"], "redshifts.py",
+     "        parallel.COMM.Bcast(counts, root=0)\n", ""),
+    ("c06-corrfunc-read-no-bcast", ["C06"], "correlation/corrfunc.py",
+     "        return bcast_instance(new)", "        return new"),
+    ("c06-reader-all-ranks-read", ["C06"], "catalog/readers.py",
+     "        if parallel.on_worker():\n            return None\n        return self._get_next_chunk()", "        return self._get_next_chunk()"),
+    ("c06-scatter-skip-empty", ["C06"], "catalog/catalog.py",
+     "                if rank != reader_rank:\n                    comm.send(split, dest=rank, tag=2)", "                if rank != reader_rank and len(split) > 0:\n                    comm.send(split, dest=rank, tag=2)"),
     # ---- C08
     ("c08-marker-not-removed-first", ["C08"], "catalog/trees.py",
      "            new.binning_file.unlink(missing_ok=True)\n", ""),
